@@ -8,16 +8,19 @@ from vlib.workers import ALL, WorkerDied, WorkerSet
 
 SYNC = ["lock", "rlock", "stringio", "bytesio", "memoryview", "localcontext", "tempfile", "nullcontext", "suppress",
         "closing", "exitstack", "condition", "semaphore", "redirect", "pym"]
-ASYNC = ["apym", "aexitstack", "anull", "aclosing"]
+ASYNC = ["apym", "apym_sx", "apym_sx", "aexitstack", "anull", "aclosing"]
 
 
 def cases():
-    item = st.fixed_dictionaries({"k": st.sampled_from(SYNC), "as": st.booleans()})
-    aitem = st.fixed_dictionaries({"k": st.sampled_from(ASYNC), "as": st.booleans()})
+    # reuse: the item enters the very manager object of the nearest earlier item of the same kind again (re-entrant and
+    # reusable managers: the same object is then active in two blocks at once)
+    reuse = st.sampled_from([False, False, True])
+    item = st.fixed_dictionaries({"k": st.sampled_from(SYNC + ["pym", "rlock"]), "as": st.booleans(), "reuse": reuse})
+    aitem = st.fixed_dictionaries({"k": st.sampled_from(ASYNC), "as": st.booleans(), "reuse": reuse})
     w_sync = st.fixed_dictionaries({"async": st.just(False), "items": st.lists(item, min_size=1, max_size=3)})
-    w_async = st.fixed_dictionaries({"async": st.just(True), "items": st.lists(aitem, min_size=1, max_size=2)})
+    w_async = st.fixed_dictionaries({"async": st.just(True), "items": st.lists(aitem, min_size=1, max_size=3)})
     return st.fixed_dictionaries({"kind": st.sampled_from(["gen", "coro", "agen"]),
-                                  "withs": st.lists(st.one_of(w_sync, w_sync, w_sync, w_async), min_size=1, max_size=4)})
+                                  "withs": st.lists(st.one_of(w_sync, w_sync, w_async, w_async), min_size=1, max_size=4)})
 
 
 def shard(arg):
